@@ -149,7 +149,8 @@ CHECKS = {
              'arrivals (2 for the routing kinds), and with and without an ERR handler (~845,000 scripts); the scripted socket takes at most 5 bytes '
              'per send() call (short write) and everything per sendall(); 2 and 3 simultaneous connections run as threads '
              'under the baton scheduler with choice points at every library line and socket operation (all schedules with <=2, '
-             'resp. <=1, preemptions). Handler class, text, arguments, reply bytes, exactly-once and closing are compared with a '
+             'resp. <=1, preemptions), each execution on a server object of its own, from a new server and from one that has already served one '
+             'connection of every kind. Handler class, text, arguments, reply bytes, exactly-once and closing are compared with a '
              'reference written from the statement; to_mllp() framing is checked for every version; 16 scripts are replayed '
              'over real TCP and must agree with the socket model.',
         note='trusted: socketserver/io/socket of CPython; the socket model (validated on 16 loopback cases, disagreement = harness error)'),
@@ -186,14 +187,16 @@ CHECKS = {
         engine=E3, design_ref='DESIGN.md section 7 C19, section 3.3',
         technique='stateless model checking of the implementation: real threads under a baton scheduler with a choice point '
                   'before every library line (sys.monitoring), iterative preemption bounding, result equality with the sequential run '
-                  'plus a frame-condition audit of all process-wide library state',
-        text='171 two- and three-thread harnesses over a corpus of 20 factory / build / parse / encode / validate bodies (incl. fields '
+                  'plus a frame-condition audit of all process-wide library state; one thread of a harness may be atomic (no points of its own)',
+        text='185 two- and three-thread harnesses over a corpus of 21 factory / build / parse / encode / validate bodies (incl. fields '
              'beyond the table of Z and varies-ended segments, a highlights list shared by the callers, a structure that lists a child name '
              'twice, a number beyond the default decimal precision, a custom-delimiter parse against a nested-group parse, a Z segment added through the child API, both threads setting the default '
              'version with calls that name their version probed after every execution) '
              '(forced collision on one version, and mixed version/level variants) are executed under every schedule with at '
              'most 2 preemptions (small x small), 1 preemption (small/medium x medium, 3 threads) and both serial orders '
-             '(large bodies) in the quick tier, ~470,000 complete executions; thorough raises the bounds (small bodies: 3 preemptions at line granularity for a body with itself, 2 at bytecode '
+             '(large bodies) in the quick tier, ~495,000 complete executions; each small and medium body is also preempted once, at each of its lines, by an '
+             'atomic background body that sweeps every datatype, base datatype and segment of the other eleven versions through the public lookups '
+             '(takes any bounded per-(name, version) table through its limit inside one preemption); thorough raises the bounds (small bodies: 3 preemptions at line granularity for a body with itself, 2 at bytecode '
              'granularity in the shared-state functions; 1 for large bodies at shared-touching lines). Every thread must observe '
              'exactly what the same call observes alone, and the fingerprint of every module global, module-level container and '
              'class-level data attribute of the library (and a digest of the tables) must be unchanged after every execution.',
